@@ -23,6 +23,7 @@ class C26(Prop):
     CORR_MODULE = "Deploy.Corr"
     LEVEL = "proof"
     MAX_WORKERS = 8
+    LOCAL_SPEC = {"wrapper": False, "wraps": None, "lazy": False, "fail": [], "dy": 0, "uy": 0}
     MAX_WATCHDOG = 3
     MIN_JUDGED = 0.97
     CASE_TIMEOUT = 60
@@ -42,8 +43,8 @@ class C26(Prop):
                "on a set event and awaiting a coroutine do not suspend, set() readies all waiters, sleep(0) suspends "
                "once, gather semantics) are exercised by the correspondence, not proved",
                "harness/props/lts_loop.py (one-callback-at-a-time event loop) and the fake connectors")
-    ASSUMPTIONS = ("wrapper deployments always name the deployment they wrap (wraps=None, which deploys __LOCAL__, is "
-                   "outside the model)",
+    ASSUMPTIONS = ("a wrapper without `wraps` sits on the implicit __LOCAL__ deployment, modelled as a plain, eager, "
+                   "never-failing deployment whose (fake) connector does not suspend",
                    "connector deploy/undeploy are opaque: they only suspend k times and then succeed or raise",
                    "schedules are interleavings of whole task steps (asyncio is single-threaded)")
 
@@ -130,7 +131,35 @@ class C26(Prop):
             for _ in range(rng.choice([1, 2, 3])):      # several schedules of one scenario
                 cases.append({"f": "sched", "deps": deps, "reqs": reqs, "final": rng.random() < 0.8,
                               "seed": rng.randrange(1 << 30)})
-        return cases[:n]
+        cases = cases[:n]
+        # appended family (own PRNG, so the cases above are unchanged): wrappers WITHOUT `wraps`, which sit on the
+        # implicit "__LOCAL__" deployment
+        r2 = random.Random(rng.random())
+        for _ in range({"quick": 14, "thorough": 140, "extended": 100}[tier]):
+            nd = r2.choice([1, 2, 2, 3])
+            deps = []
+            for i in range(nd):
+                x = r2.random()
+                if x < 0.6:
+                    deps.append({"wrapper": True, "wraps": None, "lazy": r2.random() < 0.3,
+                                 "fail": [True] if r2.random() < 0.1 else [],
+                                 "dy": r2.choice([0, 1, 2]), "uy": r2.choice([0, 1])})
+                elif i > 0 and x < 0.85:
+                    deps.append({"wrapper": True, "wraps": i - 1, "lazy": False, "fail": [],
+                                 "dy": r2.choice([0, 1]), "uy": r2.choice([0, 1])})
+                else:
+                    deps.append({"wrapper": False, "wraps": None, "lazy": False, "fail": [],
+                                 "dy": r2.choice([0, 1]), "uy": r2.choice([0, 1])})
+            reqs = []
+            for _ in range(r2.choice([1, 2, 3])):
+                ops = []
+                for _ in range(r2.choice([1, 2])):
+                    nn, x = r2.randrange(nd), r2.random()
+                    ops.append(["D", nn] if x < 0.6 else ["X", nn] if x < 0.75 else ["U", nn] if x < 0.92 else ["A"])
+                reqs.append(ops)
+            cases.append({"f": "sched", "deps": deps, "reqs": reqs, "final": r2.random() < 0.8,
+                          "seed": r2.randrange(1 << 30)})
+        return cases
 
     # ------------------------------------------------------------------ implementation
     def impl_init(self):
@@ -162,11 +191,11 @@ class C26(Prop):
                 self.w = w
                 self.cid = w["nreal"]
                 w["nreal"] += 1
-                self.idx = int(name[1:])
+                self.idx = len(w["deps"]) if name == "__LOCAL__" else int(name[1:])
 
             async def deploy(self, external):
                 w = self.w
-                d = w["deps"][self.idx]
+                d = w["deps"][self.idx] if self.idx < len(w["deps"]) else prop.LOCAL_SPEC
                 k = w["attempts"].get(self.idx, 0)
                 w["attempts"][self.idx] = k + 1
                 fail = d["fail"][k] if k < len(d["fail"]) else False
@@ -181,7 +210,7 @@ class C26(Prop):
             async def undeploy(self, external):
                 w = self.w
                 w["log"].append(["us", self.cid])
-                for _ in range(w["deps"][self.idx]["uy"]):
+                for _ in range((w["deps"][self.idx] if self.idx < len(w["deps"]) else prop.LOCAL_SPEC)["uy"]):
                     await asyncio.sleep(0)
                 w["log"].append(["ue", self.cid])
 
@@ -213,6 +242,7 @@ class C26(Prop):
 
         connector_classes["sfv_plain"] = FakePlain
         connector_classes["sfv_wrap"] = FakeWrap
+        connector_classes["local"] = FakePlain      # the implicit "__LOCAL__" deployment of wrappers without `wraps`
         self.k = types.SimpleNamespace(
             asyncio=asyncio, types=types, DeploymentConfig=DeploymentConfig, WrapsConfig=WrapsConfig,
             FutureConnector=FutureConnector, Manager=DefaultDeploymentManager, PickLoop=PickLoop,
@@ -371,7 +401,7 @@ class C26(Prop):
                     return ("all-once", "twice", f"connector {c} of d{name[c]} is undeployed twice (log position {pos})")
                 inner = name[c]
                 for wn, d in enumerate(deps):
-                    if d["wrapper"] and d["wraps"] == inner and wn != inner:
+                    if d["wrapper"] and (len(deps) if d["wraps"] is None else d["wraps"]) == inner and wn != inner:
                         lw = [c2 for c2 in st if name[c2] == wn and st[c2] in live]
                         if lw:
                             return ("wrap-order", tcls,
@@ -429,6 +459,9 @@ class C26(Prop):
         for i, d in enumerate(deps):
             if d["wraps"] is not None and d["wraps"] < len(deps):
                 comp[find(i)] = find(d["wraps"])
+        loc = [i for i, d in enumerate(deps) if d["wrapper"] and d["wraps"] is None]     # they share __LOCAL__
+        for i in loc[1:]:
+            comp[find(i)] = find(loc[0])
         spans = obs.get("spans") or []
         inf = 1 << 60
         for a in spans:
@@ -472,8 +505,6 @@ class C26(Prop):
         for e in obs["log1"] + obs["log2"]:
             if e[0] == "ret" and e[3] != "ok" and e[3] not in ERRS:
                 return None
-        if any(d["wrapper"] and d["wraps"] is None for d in case["deps"]):
-            return None
         nat = lambda l: coq_list([coq_nat(x) for x in l])
         deps = coq_list([
             f"mkD {coq_bool(d['wrapper'])} {coq_opt(d['wraps'], coq_nat)} {coq_bool(d['lazy'])} "
@@ -558,4 +589,4 @@ PROP.LEVEL_NOTE = (
     "Trusted: Coq kernel + vm_compute; the hand-written model (tied to the code only by the correspondence run); asyncio "
     "semantics assumed by the model (Event, sleep(0), gather, atomicity between awaits); the controlled event loop and "
     "fake connectors. Missing for a full proof: an inductive invariant over the frame stacks of all tasks (general "
-    "return_after / wrap_order / once-for-eager); wraps=None (__LOCAL__) is outside the model. No axioms.")
+    "return_after / wrap_order / once-for-eager); wraps=None (__LOCAL__) is inside the model since the final round. No axioms.")
